@@ -315,9 +315,11 @@ package protocol
 //@ func (*QuitResultCommand).Encode
 //@   requires self != nil && len(buf) >= 64
 //@   inline
+// (the CALL method name occupies the 38 bytes 26..63 of the frame: the decoder reads all of them)
 //@ func (*CallCommand).Decode
 //@   requires self != nil && len(buf) >= 64
 //@   inline
+//@   at call Trim#1 assert C14.call.name-span: len(arg0) == 38
 //@ func (*CallCommand).Encode
 //@   requires self != nil && len(buf) >= 64
 //@   inline
@@ -402,3 +404,4 @@ package protocol
 //@ func NewLockCommandDataSetKV
 //@   at call copy#1 assert C14.kv.keylen: implies(len(key) < 0x100000000 && i >= 4 && i < 0x4000000000000000, buf[i-4] + buf[i-3]*256 + buf[i-2]*65536 + buf[i-1]*16777216 == len(key))
 //@   at call copy#2 assert C14.kv.valuelen: implies(len(value) < 0x100000000 && i >= 4 && i < 0x4000000000000000, buf[i-4] + buf[i-3]*256 + buf[i-2]*65536 + buf[i-1]*16777216 == len(value))
+
